@@ -82,16 +82,16 @@ impl <N: NumericOps> ArrayLinalgSolvingInvertingProducts<N> for Array<N> {
         let arr_b = perm.iter().map(|&p| arr_b[p].clone()).collect::<Vec<Array<f64>>>();
         for i in 0..n {
             let l_tmp = arr_l[i][..i].to_vec().to_array()?;
-            let y_tmp = arr_y[..i].iter().flatten().copied().collect::<Vec<f64>>().to_array()?;
-            let dot = l_tmp.dot(&y_tmp).unwrap_or(Array::flat(vec![0.; arr_b[0].len()?])?);
+            let y_tmp = arr_y[..i].iter().flatten().copied().collect::<Vec<f64>>().to_array().reshape(&[i, arr_b[0].len()?]);
+            let dot = y_tmp.and_then(|y| l_tmp.dot(&y)).ravel().unwrap_or(Array::flat(vec![0.; arr_b[0].len()?])?);
             arr_y[i] = arr_b[i].broadcast_to(dot.get_shape()?)? - dot;
         }
 
         let mut arr_x = Array::<f64>::zeros_like(&other)?.get_rows()?;
         for i in (0..n).rev() {
             let u_tmp = arr_u[i][i + 1..].to_vec().to_array()?;
-            let x_tmp = arr_x[i + 1..].iter().flatten().copied().collect::<Vec<f64>>().to_array()?;
-            let dot = u_tmp.dot(&x_tmp).unwrap_or(Array::flat(vec![0.; arr_b[0].len()?])?);
+            let x_tmp = arr_x[i + 1..].iter().flatten().copied().collect::<Vec<f64>>().to_array().reshape(&[n - i - 1, arr_b[0].len()?]);
+            let dot = x_tmp.and_then(|x| u_tmp.dot(&x)).ravel().unwrap_or(Array::flat(vec![0.; arr_b[0].len()?])?);
             arr_x[i] = ((arr_y[i].clone() - dot) / arr_u[i][i])?;
         }
 
